@@ -22,12 +22,34 @@ class ExprGen:
     def lit_dec(self):
         return ("lit", ("dec", self.r.choice(DECS)))
 
+    def conv_num(self):
+        """numbers produced by conversion / rounding built-ins (kind is what matters: decimal(3) is a decimal)"""
+        r = self.r
+        n = r.randint(-9, 9)
+        d = r.choice([0.5, 1.5, 2.25, 7.5, -2.5, 3.0])
+        import math
+        return r.choice([
+            ("src", ["decimal", "(", str(abs(n)), ")"], ("dec", float(abs(n)))),
+            ("src", ["floor", "(", repr(abs(d)), ")"], ("dec", float(math.floor(abs(d))))),
+            ("src", ["ceiling", "(", repr(abs(d)), ")"], ("dec", float(math.ceil(abs(d))))),
+            ("src", ["round", "(", "3", ",", "1", ")"], ("dec", 3.0)),
+            ("src", ["round", "(", "2.0", ")"], ("dec", 2.0)),
+            ("src", ["int", "(", repr(abs(d)), ")"], ("int", int(abs(d)))),
+            ("src", ["int", "(", "'%d'" % abs(n), ")"], ("int", abs(n))),
+            ("src", ["decimal", "(", "'%d'" % abs(n), ")"], ("dec", float(abs(n)))),
+            ("src", ["length", "(", "[", "1", ",", "2", "]", ")"], ("int", 2)),
+            ("src", ["abs", "(", "-", "4", ")"], ("int", 4)),
+            ("src", ["sum", "(", "[", "1.0", ",", "2", "]", ")"], ("dec", 3.0)),
+        ])
+
     def lit_num(self):
         k = self.r.random()
-        if k < 0.6:
+        if k < 0.5:
             return self.lit_int()
-        if k < 0.95:
+        if k < 0.8:
             return self.lit_dec()
+        if k < 0.95:
+            return self.conv_num()
         return ("lit", rv.NULL)
 
     def lit_bool(self):
@@ -156,7 +178,7 @@ class ExprGen:
 
 def size(t):
     k = t[0]
-    if k in ("lit", "var"):
+    if k in ("lit", "var", "src"):
         return 1
     if k == "tick":
         return size(t[2])
